@@ -232,3 +232,66 @@ func VerifC12ManyArgs() {
 	verifAssert(err3 == nil && name2 == "set" && len(argv2) == 2 && len(argv2[1]) == 1 && argv2[1][0] == last, "C12.decode.command-after-large-command")
 	verifReach("decode.many-args")
 }
+
+// VerifC12BigArg: one command carrying a large argument (lengths at and around 4 KiB, 64 KiB and
+// 1 MiB - where buffers, pre-allocation limits and chunked reads have their thresholds - and a
+// multi-megabyte one), most bytes concrete, the first, the last and one inner byte symbolic, read
+// through a small or a default-sized bufio.Reader: the argument comes back byte-exact, the end
+// offset equals the bytes consumed, and the command behind it decodes with an exact offset too.
+func VerifC12BigArg() {
+	sizes := []int{4095, 4096, 4097, 65534, 65535, 65536, 65537, 1<<20 - 2, 1<<20 - 1, 1 << 20, 1<<20 + 1, 3<<20 + 1}
+	ns := verifParam("BIGSIZES", 10)
+	if ns > len(sizes) {
+		ns = len(sizes)
+	}
+	n := sizes[verifChoose("size", ns)]
+	small := verifChoose("smallbuf", 2) == 1
+	big := make([]byte, n)
+	for i := 0; i < n; i += 997 {
+		big[i] = byte(i>>3) | 1
+	}
+	b0, b1, b2 := verifU8("first"), verifU8("inner"), verifU8("last")
+	big[0], big[n/2+1], big[n-1] = b0, b1, b2
+	var stream []byte
+	stream = append(stream, "*3\r\n$3\r\nSET\r\n$1\r\nk\r\n$"...)
+	stream = append(stream, strconv.Itoa(n)...)
+	stream = append(stream, '\r', '\n')
+	stream = append(stream, big...)
+	stream = append(stream, '\r', '\n')
+	end1 := len(stream)
+	stream = append(stream, "*3\r\n$3\r\nSET\r\n$1\r\nk\r\n$1\r\n"...)
+	last := verifU8("next")
+	stream = append(stream, last, '\r', '\n')
+	var rd *bufio.Reader
+	if small {
+		rd = bufio.NewReaderSize(bytes.NewReader(stream), 64)
+	} else {
+		rd = bufio.NewReader(bytes.NewReader(stream))
+	}
+	d := NewDecoder(rd)
+	resp, off, err := MustDecodeOpt(d)
+	verifAssert(err == nil, "C12.decode.no-error")
+	if err != nil {
+		return
+	}
+	verifAssert(off == int64(end1), "C12.decode.offset")
+	name, argv, err := ParseArgs(resp)
+	verifAssert(err == nil && name == "set", "C12.decode.parseargs")
+	verifAssert(len(argv) == 2, "C12.decode.argc")
+	if len(argv) == 2 {
+		verifAssert(len(argv[1]) == n, "C12.decode.arg-bytes")
+		if len(argv[1]) == n {
+			verifAssert(argv[1][0] == b0 && argv[1][n/2+1] == b1 && argv[1][n-1] == b2, "C12.decode.arg-bytes")
+			verifAssert(bytes.Equal(argv[1], big), "C12.decode.arg-bytes")
+		}
+	}
+	resp2, off2, err2 := MustDecodeOpt(d)
+	verifAssert(err2 == nil, "C12.decode.no-error")
+	if err2 != nil {
+		return
+	}
+	verifAssert(off2 == int64(len(stream)), "C12.decode.offset")
+	name2, argv2, err3 := ParseArgs(resp2)
+	verifAssert(err3 == nil && name2 == "set" && len(argv2) == 2 && len(argv2[1]) == 1 && argv2[1][0] == last, "C12.decode.command-after-large-command")
+	verifReach("decode.big-arg")
+}
